@@ -1,0 +1,83 @@
+//go:build verif
+
+// Copyright (c) 2026 Tigera, Inc. All rights reserved.
+//
+// Licensed under the Apache License, Version 2.0 (the "License");
+// you may not use this file except in compliance with the License.
+// You may obtain a copy of the License at
+//
+//     http://www.apache.org/licenses/LICENSE-2.0
+//
+// Unless required by applicable law or agreed to in writing, software
+// distributed under the License is distributed on an "AS IS" BASIS,
+// WITHOUT WARRANTIES OR CONDITIONS OF ANY KIND, either express or implied.
+// See the License for the specific language governing permissions and
+// limitations under the License.
+
+package polprog
+
+// This file only exists with the build tag "verif".  It exposes, read-only, the hand-maintained
+// offsets that the policy program builder uses to address struct cali_tc_state, struct ip_set_key
+// and struct __sk_buff so that an external harness can compare them with the C definitions.
+
+// VerifStateOffsets returns the builder's offsets into struct cali_tc_state keyed by the C member
+// that each one is documented to address (the FieldOffset.Field string, e.g. "state->pol_rc").
+func VerifStateOffsets() map[string]int16 {
+	out := map[string]int16{}
+	for _, fo := range []struct {
+		Offset int16
+		Field  string
+	}{
+		{stateOffIPSrc.Offset, stateOffIPSrc.Field},
+		{stateOffIPDst.Offset, stateOffIPDst.Field},
+		{stateOffPreNATIPDst.Offset, stateOffPreNATIPDst.Field},
+		{stateOffPostNATIPDst.Offset, stateOffPostNATIPDst.Field},
+		{stateOffPolResult.Offset, stateOffPolResult.Field},
+		{stateOffSrcPort.Offset, stateOffSrcPort.Field},
+		{stateOffDstPort.Offset, stateOffDstPort.Field},
+		{stateOffICMPType.Offset, stateOffICMPType.Field},
+		{stateOffPreNATDstPort.Offset, stateOffPreNATDstPort.Field},
+		{stateOffPostNATDstPort.Offset, stateOffPostNATDstPort.Field},
+		{stateOffIPProto.Offset, stateOffIPProto.Field},
+		{stateOffIPSize.Offset, stateOffIPSize.Field},
+		{stateOffRulesHit.Offset, stateOffRulesHit.Field},
+		{stateOffRuleIDs.Offset, stateOffRuleIDs.Field},
+		{stateOffFlags.Offset, stateOffFlags.Field},
+	} {
+		out[fo.Field] = fo.Offset
+	}
+	return out
+}
+
+// VerifSkbOffsets returns the builder's offsets into struct __sk_buff.
+func VerifSkbOffsets() map[string]int16 {
+	return map[string]int16{
+		skbCb0.Field: skbCb0.Offset,
+		skbCb1.Field: skbCb1.Offset,
+	}
+}
+
+// VerifIPSetKeyOffsets returns the builder's offsets into the IPv4 struct ip_set_key, keyed by C
+// member name, plus "v6Adjust": the shift the builder applies to members after the address in IPv6
+// programs (see setUpIPSetKey).
+func VerifIPSetKeyOffsets() map[string]int16 {
+	return map[string]int16{
+		"mask":     ipsKeyPrefix,
+		"set_id":   ipsKeyID,
+		"addr":     ipsKeyAddr,
+		"port":     ipsKeyPort,
+		"protocol": ipsKeyProto,
+		"pad":      ipsKeyPad,
+		"v6Adjust": 12,
+	}
+}
+
+// VerifStackOffsets returns the builder's private stack layout (state-map key, source and
+// destination IP set keys), for executors that want to bound-check stack accesses.
+func VerifStackOffsets() map[string]int16 {
+	return map[string]int16{
+		"stateKey":    offStateKey,
+		"srcIPSetKey": offSrcIPSetKey,
+		"dstIPSetKey": offDstIPSetKey,
+	}
+}
